@@ -5,9 +5,39 @@ use core::marker::PhantomData;
 use core::mem::{self, MaybeUninit};
 use core::ptr::NonNull;
 
+/// Table storage pointer. Deliberately a plain `*const` (covariant in `T` like `NonNull`, but
+/// *without* a null niche): with a niche, `Option<RawIter>` / `Option<OldTable>` in griddle are
+/// encoded by Kani through the pointer field and CBMC loses constant propagation for every
+/// update made through `Option::as_mut()` (measured: a 4-element split-map iteration was
+/// unwound to the bound instead of 4 times).
+#[derive(Debug)]
+pub struct P<T>(*const T);
+impl<T> Clone for P<T> {
+    #[inline(always)]
+    fn clone(&self) -> Self {
+        P(self.0)
+    }
+}
+impl<T> Copy for P<T> {}
+impl<T> PartialEq for P<T> {
+    #[inline(always)]
+    fn eq(&self, o: &Self) -> bool {
+        self.0 == o.0
+    }
+}
+impl<T> P<T> {
+    #[inline(always)]
+    pub const fn dangling() -> Self {
+        P(core::ptr::null())
+    }
+    #[inline(always)]
+    pub fn as_ptr(self) -> *mut T {
+        self.0 as *mut T
+    }
+}
 #[inline(always)]
-fn nn<T>(p: *mut T) -> NonNull<T> {
-    unsafe { NonNull::new_unchecked(p) }
+fn nn<T>(p: *mut T) -> P<T> {
+    P(p as *const T)
 }
 
 /// Model group width (the real one is 16 with SSE2, 8 portable). 4 gives an 8- or 16-slot
@@ -19,12 +49,11 @@ pub const MAXB: usize = 16;
 #[cfg(feature = "maxb32")]
 pub const MAXB: usize = 32;
 
-pub const EMPTY: u8 = 0;
-pub const DELETED: u8 = 1;
-pub const FULL: u8 = 2;
 
 pub struct Slot<T> {
-    ctrl: u8,
+    /// is the bucket FULL? (kept apart from tombstone accounting so that the control flow of
+    /// iteration stays concrete when the layout is concrete, see `tombs` below)
+    full: bool,
     /// hash the element was stored under (stands for the control byte's h2 and the probe start)
     hash: u64,
     val: MaybeUninit<T>,
@@ -35,14 +64,18 @@ pub struct InsertSlot {
 }
 
 pub struct Bucket<T> {
-    slot: NonNull<Slot<T>>,
+    slot: P<Slot<T>>,
+    /// bucket index, carried along so that no pointer arithmetic (which CBMC does not
+    /// constant-fold) is needed to get from a bucket back to its position
+    index: usize,
 }
 impl<T> Clone for Bucket<T> {
     #[inline]
     fn clone(&self) -> Self {
-        Bucket { slot: self.slot }
+        Bucket { slot: self.slot, index: self.index }
     }
 }
+unsafe impl<T> Send for Bucket<T> {}
 impl<T> Bucket<T> {
     #[inline]
     pub unsafe fn as_ref<'a>(&self) -> &'a T {
@@ -59,11 +92,15 @@ impl<T> Bucket<T> {
 }
 
 pub struct RawTable<T> {
-    slots: NonNull<Slot<T>>,
+    slots: P<Slot<T>>,
     /// logical bucket count, a power of two <= MAXB; 0 = the unallocated empty singleton
     buckets: usize,
     items: usize,
     growth_left: usize,
+    /// number of DELETED control bytes. *Which* vacant buckets are tombstones is not
+    /// represented: nothing a client can observe depends on it, and an insertion may meet
+    /// either kind first (decided nondeterministically when both exist).
+    tombs: usize,
     marker: PhantomData<T>,
 }
 
@@ -77,10 +114,11 @@ fn phys_layout<T>() -> alloc::alloc::Layout {
 impl<T> RawTable<T> {
     pub const fn new() -> Self {
         RawTable {
-            slots: NonNull::dangling(),
+            slots: P::dangling(),
             buckets: 0,
             items: 0,
             growth_left: 0,
+            tombs: 0,
             marker: PhantomData,
         }
     }
@@ -103,6 +141,7 @@ impl<T> RawTable<T> {
             buckets,
             items: 0,
             growth_left: sizing::cap_of_mask(buckets - 1),
+            tombs: 0,
             marker: PhantomData,
         }
     }
@@ -140,7 +179,7 @@ impl<T> RawTable<T> {
             alloc::alloc::dealloc(self.slots.as_ptr() as *mut u8, phys_layout::<T>());
             LIVE -= 1;
             self.buckets = 0;
-            self.slots = NonNull::dangling();
+            self.slots = P::dangling();
         }
     }
 
@@ -160,25 +199,24 @@ impl<T> RawTable<T> {
 
     pub unsafe fn bucket_index(&self, b: &Bucket<T>) -> usize {
         assert!(self.buckets != 0, "[ghost] bucket handed to a table that has no buckets");
-        let off = b.slot.as_ptr().offset_from(self.slots.as_ptr());
         assert!(
-            off >= 0 && (off as usize) < self.buckets,
+            b.index < self.buckets && self.slots.as_ptr().add(b.index) == b.slot.as_ptr(),
             "[ghost] bucket does not belong to this table"
         );
-        off as usize
+        b.index
     }
 
     unsafe fn erase_no_drop(&mut self, item: &Bucket<T>) {
-        let i = self.bucket_index(item);
-        let s = self.slot(i);
-        assert!((*s).ctrl == FULL, "[ghost] erase/remove of a bucket that is not full");
+        let _ = self.bucket_index(item);
+        let s = item.slot.as_ptr();
+        assert!((*s).full, "[ghost] erase/remove of a bucket that is not full");
+        (*s).full = false;
         // the real table decides from the neighbouring groups whether the slot can become
         // EMPTY again or must be a tombstone: either may happen
         if nondet_bool() {
-            (*s).ctrl = EMPTY;
             self.growth_left += 1;
         } else {
-            (*s).ctrl = DELETED;
+            self.tombs += 1;
         }
         self.items -= 1;
     }
@@ -205,7 +243,7 @@ impl<T> RawTable<T> {
         while i < MAXB {
             if i < self.buckets {
                 let s = self.slot(i);
-                if (*s).ctrl == FULL {
+                if (*s).full {
                     core::ptr::drop_in_place((*s).val.as_mut_ptr());
                 }
             }
@@ -217,11 +255,12 @@ impl<T> RawTable<T> {
         let mut i = 0;
         while i < MAXB {
             if i < self.buckets {
-                unsafe { (*self.slot(i)).ctrl = EMPTY };
+                unsafe { (*self.slot(i)).full = false };
             }
             i += 1;
         }
         self.items = 0;
+        self.tombs = 0;
         self.growth_left = self.full_capacity();
     }
 
@@ -246,12 +285,12 @@ impl<T> RawTable<T> {
         while i < MAXB {
             if i < self.buckets {
                 let s = self.slot(i);
-                if (*s).ctrl == FULL {
+                if (*s).full {
                     let h = hasher(&*(*s).val.as_ptr());
                     REHASH += 1;
                     assert!(j < new.buckets, "[model] resize target too small");
                     let d = new.slot(j);
-                    (*d).ctrl = FULL;
+                    (*d).full = true;
                     (*d).hash = h;
                     (*d).val.as_mut_ptr().write((*s).val.as_ptr().read());
                     j += 1;
@@ -266,6 +305,7 @@ impl<T> RawTable<T> {
         self.buckets = new.buckets;
         self.items = new.items;
         self.growth_left = new.growth_left;
+        self.tombs = 0;
         mem::forget(new);
         Ok(())
     }
@@ -279,6 +319,7 @@ impl<T> RawTable<T> {
             }
             self.items = 0;
             self.growth_left = 0;
+            self.tombs = 0;
             return;
         }
         let min_buckets = match sizing::buckets_for(min_size) {
@@ -323,9 +364,7 @@ impl<T> RawTable<T> {
                 if i < self.buckets {
                     unsafe {
                         let s = self.slot(i);
-                        if (*s).ctrl == DELETED {
-                            (*s).ctrl = EMPTY;
-                        } else if (*s).ctrl == FULL {
+                        if (*s).full {
                             (*s).hash = hasher(&*(*s).val.as_ptr());
                             REHASH += 1;
                         }
@@ -333,6 +372,7 @@ impl<T> RawTable<T> {
                 }
                 i += 1;
             }
+            self.tombs = 0;
             self.growth_left = full_capacity - self.items;
             Ok(())
         } else {
@@ -360,63 +400,56 @@ impl<T> RawTable<T> {
         }
     }
 
-    /// Where the next element goes. The real table follows the hash's probe sequence and takes
-    /// the first EMPTY or DELETED byte; which kind it meets first is not determined by
-    /// anything griddle controls, so when both kinds exist the model lets either be met.
+    /// Where the next element goes: the lowest vacant bucket (any vacant bucket with feature
+    /// `nondet-placement`). The real table follows the hash's probe sequence; griddle never
+    /// looks at positions in the table it inserts into.
     unsafe fn choose_free_slot(&self) -> usize {
         #[cfg(feature = "nondet-placement")]
         {
             let i = nondet_usize();
             assume(i < self.buckets);
-            assume((*self.slot(i)).ctrl != FULL);
+            assume(!(*self.slot(i)).full);
             return i;
         }
         #[cfg(not(feature = "nondet-placement"))]
         {
             let mut e = MAXB;
-            let mut d = MAXB;
             let mut j = MAXB;
             while j > 0 {
                 j -= 1;
-                if j < self.buckets {
-                    let c = (*self.slot(j)).ctrl;
-                    if c == EMPTY {
-                        e = j;
-                    } else if c == DELETED {
-                        d = j;
-                    }
+                if j < self.buckets && !(*self.slot(j)).full {
+                    e = j;
                 }
             }
-            if e < MAXB && d < MAXB {
-                if nondet_bool() {
-                    e
-                } else {
-                    d
-                }
-            } else if e < MAXB {
-                e
-            } else {
-                assert!(d < MAXB, "[model] table without a free bucket");
-                d
-            }
+            assert!(e < MAXB, "[model] table without a vacant bucket");
+            e
         }
     }
 
-    unsafe fn insert_at(&mut self, i: usize, hash: u64, value: T) -> Bucket<T> {
+    /// Does the next insertion meet a tombstone (true) or an EMPTY byte (false)? Which one
+    /// the probe sequence meets first is not determined by anything griddle controls, so when
+    /// tombstones exist either may happen. (An EMPTY byte always exists: load factor < 1.)
+    fn meets_tombstone(&self) -> bool {
+        self.tombs > 0 && nondet_bool()
+    }
+
+    unsafe fn insert_at(&mut self, i: usize, tomb: bool, hash: u64, value: T) -> Bucket<T> {
         let s = self.slot(i);
-        if (*s).ctrl == EMPTY {
+        if tomb {
+            self.tombs -= 1;
+        } else {
             assert!(
                 self.growth_left > 0,
                 "[ghost] insert into an EMPTY bucket with growth_left == 0 (the real table underflows growth_left: capacity() lies and probe loops may not terminate)"
             );
             self.growth_left -= 1;
         }
-        (*s).ctrl = FULL;
+        (*s).full = true;
         (*s).hash = hash;
         (*s).val.as_mut_ptr().write(value);
         self.items += 1;
         INSERTS += 1;
-        Bucket { slot: nn(s) }
+        Bucket { slot: nn(s), index: i }
     }
 
     pub fn insert(&mut self, hash: u64, value: T, hasher: impl Fn(&T) -> u64) -> Bucket<T> {
@@ -424,12 +457,13 @@ impl<T> RawTable<T> {
             if self.buckets == 0 {
                 self.reserve(1, &hasher);
             }
-            let mut i = self.choose_free_slot();
-            if self.growth_left == 0 && (*self.slot(i)).ctrl == EMPTY {
+            let mut tomb = self.meets_tombstone();
+            if self.growth_left == 0 && !tomb {
                 self.reserve(1, &hasher);
-                i = self.choose_free_slot();
+                tomb = self.meets_tombstone();
             }
-            self.insert_at(i, hash, value)
+            let i = self.choose_free_slot();
+            self.insert_at(i, tomb, hash, value)
         }
     }
 
@@ -438,24 +472,27 @@ impl<T> RawTable<T> {
             self.buckets != 0,
             "[ghost] insert_no_grow on the unallocated empty table (writes to the static empty group)"
         );
+        let tomb = self.meets_tombstone();
         let i = self.choose_free_slot();
-        self.insert_at(i, hash, value)
+        self.insert_at(i, tomb, hash, value)
     }
 
     pub unsafe fn replace_bucket_with<F>(&mut self, bucket: Bucket<T>, f: F) -> bool
     where
         F: FnOnce(T) -> Option<T>,
     {
-        let index = self.bucket_index(&bucket);
-        let s = self.slot(index);
+        let _ = self.bucket_index(&bucket);
+        let s = bucket.slot.as_ptr();
         if cfg!(debug_assertions) {
-            assert!((*s).ctrl == FULL, "[debug-only] replace_bucket_with: debug_assert!(is_bucket_full)");
+            assert!((*s).full, "[debug-only] replace_bucket_with: debug_assert!(is_bucket_full)");
         }
         let old_growth_left = self.growth_left;
+        let old_tombs = self.tombs;
         let item = self.remove(bucket).0;
         if let Some(new_item) = f(item) {
             self.growth_left = old_growth_left;
-            (*s).ctrl = FULL;
+            self.tombs = old_tombs;
+            (*s).full = true;
             self.items += 1;
             (*s).val.as_mut_ptr().write(new_item);
             true
@@ -470,12 +507,12 @@ impl<T> RawTable<T> {
             if i < self.buckets {
                 unsafe {
                     let s = self.slot(i);
-                    if (*s).ctrl == FULL && eq(&*(*s).val.as_ptr()) {
+                    if (*s).full && eq(&*(*s).val.as_ptr()) {
                         assert!(
                             (*s).hash == hash,
                             "[ghost] lookup hash differs from the hash the matching element was stored under (the real probe sequence can miss it)"
                         );
-                        return Some(Bucket { slot: nn(s) });
+                        return Some(Bucket { slot: nn(s), index: i });
                     }
                 }
             }
@@ -505,11 +542,11 @@ impl<T> RawTable<T> {
         }
     }
 
-    unsafe fn load_mask(slots: NonNull<Slot<T>>, buckets: usize, start: usize) -> usize {
+    unsafe fn load_mask(slots: P<Slot<T>>, buckets: usize, start: usize) -> usize {
         let mut m = 0usize;
         let mut k = 0;
         while k < W {
-            if start + k < buckets && (*slots.as_ptr().add(start + k)).ctrl == FULL {
+            if start + k < buckets && (*slots.as_ptr().add(start + k)).full {
                 m |= 1 << k;
             }
             k += 1;
@@ -581,9 +618,9 @@ impl<T: Clone> Clone for RawTable<T> {
                     let s = self.slot(i);
                     let d = n.slot(i);
                     // control bytes (i.e. hash bits) are copied verbatim
-                    (*d).ctrl = (*s).ctrl;
+                    (*d).full = (*s).full;
                     (*d).hash = (*s).hash;
-                    if (*s).ctrl == FULL {
+                    if (*s).full {
                         (*d).val.as_mut_ptr().write((*(*s).val.as_ptr()).clone());
                     }
                 }
@@ -592,6 +629,7 @@ impl<T: Clone> Clone for RawTable<T> {
         }
         n.items = self.items;
         n.growth_left = self.growth_left;
+        n.tombs = self.tombs;
         n
     }
 }
@@ -607,12 +645,12 @@ impl<T: Clone> RawTable<T> {
                 if i < source.buckets {
                     unsafe {
                         let s = source.slot(i);
-                        if (*s).ctrl == FULL {
+                        if (*s).full {
                             let item = (*(*s).val.as_ptr()).clone();
                             let h = hasher(&item);
                             REHASH += 1;
                             let d = self.slot(j);
-                            (*d).ctrl = FULL;
+                            (*d).full = true;
                             (*d).hash = h;
                             (*d).val.as_mut_ptr().write(item);
                             j += 1;
@@ -634,6 +672,7 @@ impl<T: Clone> RawTable<T> {
             self.buckets = n.buckets;
             self.items = n.items;
             self.growth_left = n.growth_left;
+            self.tombs = n.tombs;
             mem::forget(n);
         }
     }
@@ -650,7 +689,7 @@ impl<T> Drop for RawTable<T> {
 
 /// Cursor over the full buckets of one table. Like the real one it *trusts* `items`.
 pub struct RawIter<T> {
-    slots: NonNull<Slot<T>>,
+    slots: P<Slot<T>>,
     buckets: usize,
     group_start: usize,
     mask: usize,
@@ -678,12 +717,11 @@ impl<T> RawIter<T> {
     /// zero-sized `T` every bucket has the *same* element pointer; both are kept.
     pub unsafe fn reflect_remove(&mut self, b: &Bucket<T>) {
         let zst = mem::size_of::<T>() == 0;
-        let off = b.slot.as_ptr().offset_from(self.slots.as_ptr());
         assert!(
-            off >= 0 && (off as usize) < self.buckets,
+            b.index < self.buckets && self.slots.as_ptr().add(b.index) == b.slot.as_ptr(),
             "[ghost] reflect_remove: bucket is not in the iterator's table"
         );
-        let idx = off as usize;
+        let idx = b.index;
         // `if b.as_ptr() > self.iter.data.as_ptr() { return }` — iterator already passed it
         if !zst && idx < self.group_start {
             return;
@@ -698,7 +736,7 @@ impl<T> RawIter<T> {
                     "[panic] hashbrown reflect_remove: offset_from on a zero-sized element type (assertion 0 < pointee_size)"
                 );
                 assert!(
-                    (*b.slot.as_ptr()).ctrl == FULL,
+                    (*b.slot.as_ptr()).full,
                     "[debug-only] hashbrown reflect_remove: assert!(is_full(*ctrl)) — must be called before the removal, for a full bucket"
                 );
             }
@@ -754,10 +792,10 @@ impl<T> Iterator for RawIter<T> {
                     self.items -= 1;
                     let s = self.slots.as_ptr().add(self.group_start + k);
                     assert!(
-                        (*s).ctrl == FULL,
+                        (*s).full,
                         "[ghost] RawIter yields a bucket that is no longer full (stale cached group: a removal was not reflected)"
                     );
-                    return Some(Bucket { slot: nn(s) });
+                    return Some(Bucket { slot: nn(s), index: self.group_start + k });
                 }
                 self.group_start += W;
                 assert!(
@@ -780,7 +818,7 @@ impl<T> core::iter::FusedIterator for RawIter<T> {}
 
 pub struct RawIntoIter<T> {
     iter: RawIter<T>,
-    slots: NonNull<Slot<T>>,
+    slots: P<Slot<T>>,
     buckets: usize,
 }
 unsafe impl<T: Send> Send for RawIntoIter<T> {}
@@ -879,12 +917,11 @@ impl<T> RawTable<T> {
                 let s = t.slot(i);
                 if full_mask >> i & 1 == 1 {
                     let v = gen(i);
-                    (*s).ctrl = FULL;
+                    (*s).full = true;
                     (*s).hash = hashfn(&v);
                     (*s).val.as_mut_ptr().write(v);
                     full += 1;
                 } else if del_mask >> i & 1 == 1 {
-                    (*s).ctrl = DELETED;
                     del += 1;
                 }
             }
@@ -892,6 +929,7 @@ impl<T> RawTable<T> {
         }
         assert!(full + del <= cap, "[harness] layout exceeds the table's load limit");
         t.items = full;
+        t.tombs = del;
         t.growth_left = cap - full - del;
         t
     }
@@ -919,18 +957,15 @@ impl<T> RawTable<T> {
     pub fn verif_is_allocated(&self) -> bool {
         self.buckets != 0
     }
-    pub fn verif_ctrl(&self, i: usize) -> u8 {
-        unsafe {
-            if i < self.buckets {
-                (*self.slot(i)).ctrl
-            } else {
-                EMPTY
-            }
-        }
+    pub fn verif_is_full(&self, i: usize) -> bool {
+        unsafe { i < self.buckets && (*self.slot(i)).full }
+    }
+    pub fn verif_tombs(&self) -> usize {
+        self.tombs
     }
     pub fn verif_slot(&self, i: usize) -> Option<&T> {
         unsafe {
-            if i < self.buckets && (*self.slot(i)).ctrl == FULL {
+            if i < self.buckets && (*self.slot(i)).full {
                 Some(&*(*self.slot(i)).val.as_ptr())
             } else {
                 None
@@ -951,7 +986,7 @@ impl<T> RawTable<T> {
         let mut n = 0;
         let mut i = 0;
         while i < MAXB {
-            if self.verif_ctrl(i) == FULL {
+            if self.verif_is_full(i) {
                 n += 1;
             }
             i += 1;
@@ -981,7 +1016,7 @@ impl<T> RawIter<T> {
         let mut i = 0;
         while i < MAXB {
             if i < t.buckets {
-                let full = unsafe { (*t.slot(i)).ctrl == FULL };
+                let full = unsafe { (*t.slot(i)).full };
                 let pending = if i < self.group_start {
                     false
                 } else if i < self.group_start + W {
